@@ -10,7 +10,7 @@ cd $wt && git checkout -q --detach $(git -C /repo rev-parse HEAD) && git checkou
 git apply "$patch" || { echo "patch does not apply"; exit 3; }
 cd /verif
 for p in "$@"; do
-  out=$(VERIF_REPO=$wt VERIF_OUT_DIR=/tmp/seedout timeout 1800 python3-vt check.py $p --tier ${TIER:-quick} 2>&1); rc=$?
+  out=$(VERIF_REPO=$wt VERIF_OUT_DIR=/tmp/seedout timeout ${TIMEOUT:-1800} python3-vt check.py $p --tier ${TIER:-quick} 2>&1); rc=$?
   echo "== $p rc=$rc"
   echo "$out" | grep -E "^VIOLATION|^   what|^INCONCLUSIVE|^KNOWN|tier=" | cut -c1-500 | head -${LINES_SHOWN:-6}
 done
